@@ -206,6 +206,57 @@ def read_both(A, RU, text):
     return acvrs, contests, gcvrs
 
 
+# ---------------------------------------------------------------- numeric representations of a rank / index
+# CVR's docstring: a rank is whatever int(get_vote_for(..)) converts (CVR.as_rank = int(v)); generator indices are
+# compared with ==, < only.  So every integral numeric type is a legal carrier; the model and the oracles see int(v).
+def _reps():
+    import numpy as np
+    return {"int": int, "np.int64": np.int64, "np.int32": np.int32, "np.int8": np.int8, "float": float,
+            "np.float64": np.float64}
+
+
+REP_NAMES = ["int", "np.int64", "np.int32", "np.int8", "float", "np.float64"]
+
+
+def pick_rep(rng, p_plain=0.4):
+    """one representation for a whole ballot (or world): plain as produced, one numeric type, or mixed per value"""
+    u = rng.random()
+    if u < p_plain:
+        return "asis"
+    return rng.choice(REP_NAMES[1:] + ["mixed", "mixed"])
+
+
+def rerep(d, how, rng, audit):
+    """the same rank / index dict with its values carried by other numeric types.  Falsy non-numeric audit-side
+    values (None, '') are left alone; on the audit side rank 1 may also be True (get_vote_for(..) == 1 holds)."""
+    if how == "asis":
+        return d
+    R = _reps()
+    out = {}
+    for c, v in d.items():
+        if v is None or isinstance(v, str):
+            out[c] = v
+            continue
+        h = rng.choice(REP_NAMES) if how == "mixed" else how
+        if how == "mixed" and audit and int(v) == 1 and rng.random() < 0.2:
+            out[c] = True
+        else:
+            out[c] = R[h](int(v))
+    return out
+
+
+def rerep_cvr(A, cvr, how, rng):
+    if how == "asis":
+        return cvr
+    return A.CVR(id=cvr.id, votes={k: rerep(d, how, rng, True) for k, d in cvr.votes.items()})
+
+
+def rerep_gcvr(gv, how, rng):
+    if how == "asis":
+        return gv
+    return {k: rerep(d, how, rng, False) for k, d in gv.items()}
+
+
 def order_of(d):
     """preference order encoded by a rank / index dict"""
     return [c for c, _ in sorted(d.items(), key=lambda kv: kv[1])]
@@ -248,9 +299,15 @@ def sweep(ctx, res, A, RU, ids, n, si, sample=None):
     robjs = [raire_obj(RU, cid, a) for a in asrts]
     kas = [(a[0], K[a[1]], K[a[2]]) + (([K[e] for e in a[3]],) if a[0] == "NEN" else ()) for a in asrts]
     cases = []
+    # numeric carrier of the ranks: one choice for the whole world (25%), else chosen per ballot and per side
+    world = (pick_rep(ctx.rng, 0.0), pick_rep(ctx.rng, 0.0)) if ctx.rng.random() < 0.25 else None
     for j, r in enumerate(ranks):
         bid = f"b{j}"
         av, gv = amap.get(bid), gcvrs.get(bid)
+        how_a, how_g = world if world else (pick_rep(ctx.rng), pick_rep(ctx.rng))
+        if av is not None and gv is not None:
+            av, gv = rerep_cvr(A, av, how_a, ctx.rng), rerep_gcvr(gv, how_g, ctx.rng)
+            res.stats_reps[how_a] = res.stats_reps.get(how_a, 0) + 1
         res.oracle_runs += 1
         if av is None or gv is None:
             res.oracle_violations.append({
@@ -268,7 +325,7 @@ def sweep(ctx, res, A, RU, ids, n, si, sample=None):
                 res.oracle_violations.append({
                     "what": f"{a[0]} assorter value differs from (w - l + 1)/2 of the generator's own verdicts",
                     "input": {"candidates": cands, "ballot_ranking": list(r), "assertion": json_of(a),
-                              "contest": cid},
+                              "contest": cid, "cvr_votes": repr(av.votes), "raire_cvr": repr(gv)},
                     "observed": {"assort_audit": x, "raire_is_vote_for_winner": gw, "raire_is_vote_for_loser": gl},
                     "signature": f"C14:assort-vs-raire:{a[0]}"})
             if a[1] in r or a[2] in r:
@@ -315,6 +372,7 @@ def dict_case(ctx, A, RU, ids):
     gd = {}
     for c in rng.sample(pool, rng.randint(0, len(pool))):
         gd[c] = rng.randint(0, n)
+    ad, gd = rerep(ad, pick_rep(rng), rng, True), rerep(gd, pick_rep(rng), rng, False)
     has_a, has_g = rng.random() < 0.85, rng.random() < 0.85
     avotes = {cid: ad} if has_a else {}
     if rng.random() < 0.4:
@@ -341,6 +399,15 @@ def dict_case(ctx, A, RU, ids):
             if E and rng.random() < 0.15:
                 E.insert(rng.randint(0, len(E)), rng.choice(E))
             asrts.append(("NEN", w, l, E))
+    # a world whose candidate ids are ints: make_assertions_from_json concatenates ids into labels (str only), so
+    # there only the CVR methods are called directly, on a CVR keyed by ints
+    int_ids = rng.random() < 0.15
+    if int_ids:
+        I = {c: 100 + i for i, c in enumerate(pool)}
+        cvr = A.CVR(id="x", votes={k: {I[c]: v for c, v in d.items()} if k == cid else d for k, d in avotes.items()})
+        asrts = []
+    else:
+        I = {c: c for c in pool}
     con = audit_contest(A, cid, cands)
     assorters = build_assorters(A, con, jc, asrts)
     outs = []
@@ -349,22 +416,22 @@ def dict_case(ctx, A, RU, ids):
         ka = (a[0], K[a[1]], K[a[2]]) + (([K[e] for e in a[3]],) if a[0] == "NEN" else ())
         outs.append((ka, asr.assort(cvr), ro.is_vote_for_winner(gvotes), ro.is_vote_for_loser(gvotes)))
     calls = []
-    for _ in range(rng.randint(2, 6)):
+    for _ in range(rng.randint(2, 6) * (3 if int_ids else 1)):
         if rng.random() < 0.4:
             w, l = rng.choice(pool), rng.choice(pool)
-            calls.append((("L", K[w], K[l]), cvr.rcv_lfunc_wo(cid, w, l)))
+            calls.append((("L", K[w], K[l]), cvr.rcv_lfunc_wo(cid, I[w], I[l])))
         else:
             c = rng.choice(pool)
             rem = rng.sample(pool, rng.randint(0, len(pool)))
             if rng.random() < 0.2 and rem:
                 rem = rem + [rem[0]]
-            calls.append((("V", K[c], [K[x] for x in rem]), cvr.rcv_votefor_cand(cid, c, rem)))
+            calls.append((("V", K[c], [K[x] for x in rem]), cvr.rcv_votefor_cand(cid, I[c], [I[x] for x in rem])))
     kk = {cid: 5, other: 6}
     return {"cid": 5, "cands": [K[c] for c in jc], "gcands": [K[c] for c in cands], "rank": None,
             "avotes": [(kk[k], [(K[c], intval(v)) for c, v in d.items()]) for k, d in avotes.items()],
             "gvotes": [(kk[k], [(K[c], int(v)) for c, v in d.items()]) for k, d in gvotes.items()],
             "outs": outs, "calls": calls,
-            "json": {"stream": "dicts", "candidates": jc, "cvr_votes": C.jsonable(avotes), "raire_cvr": gvotes,
+            "json": {"stream": "dicts", "candidates": jc, "cvr_votes": repr(cvr.votes), "raire_cvr": repr(gvotes),
                      "assertions": [json_of(a) for a in asrts]}}
 
 
@@ -489,6 +556,7 @@ def file_case(ctx, res, A, RU, ids):
             av, gv = amap.get(bid), gcvrs.get(bid)
             if av is None or gv is None:
                 continue
+            av, gv = rerep_cvr(A, av, pick_rep(rng), rng), rerep_gcvr(gv, pick_rep(rng), rng)
             for a, asr, ro in zip(asrts, assorters, robjs):
                 res.oracle_runs += 1
                 x, gw, gl = asr.assort(av), ro.is_vote_for_winner(gv), ro.is_vote_for_loser(gv)
@@ -497,7 +565,7 @@ def file_case(ctx, res, A, RU, ids):
                         "what": f"{a[0]} assorter on the audit's reading of a RAIRE file differs from (w - l + 1)/2 of "
                                 "the generator's verdicts on its own reading",
                         "input": {"text": text, "contest": cid, "candidates": cands, "ballot_id": bid,
-                                  "assertion": json_of(a)},
+                                  "assertion": json_of(a), "cvr_votes": repr(av.votes), "raire_cvr": repr(gv)},
                         "observed": {"assort_audit": x, "raire_w": gw, "raire_l": gl},
                         "signature": f"C14:file-assort-vs-raire:{a[0]}"})
     res.nontrivial.add(("file", text))
@@ -527,6 +595,9 @@ def tally_cases(ctx, res, A, RU, RR, ids):
     rng = ctx.rng
     text, contests, blines = gen_file(rng, ids, profile=True)
     acvrs, gcons, gcvrs = read_both(A, RU, text)
+    world = (pick_rep(rng, 0.3), pick_rep(rng, 0.3)) if rng.random() < 0.5 else None
+    acvrs = [rerep_cvr(A, c, world[0] if world else pick_rep(rng), rng) for c in acvrs]
+    gcvrs = {b: rerep_gcvr(v, world[1] if world else pick_rep(rng), rng) for b, v in gcvrs.items()}
     key = Keys()
     cvrs_model = [(key(b), [(key(k), [(key(x), int(v)) for x, v in d.items()]) for k, d in v.items()])
                   for b, v in gcvrs.items()]
@@ -556,7 +627,8 @@ def tally_cases(ctx, res, A, RU, RR, ids):
                 res.oracle_violations.append({
                     "what": f"{ja[0]} assertion returned by compute_raire_assertions does not reproduce its reported "
                             "tallies when re-applied to the CVRs through its own predicates",
-                    "input": {"text": text, "contest": con.name, "winner": w, "assertion": json_of(ja)},
+                    "input": {"text": text, "contest": con.name, "winner": w, "assertion": json_of(ja),
+                              "raire_cvrs": repr(gcvrs)},
                     "observed": {"votes_for_winner": vw, "votes_for_loser": vl, "retally_winner": rw,
                                  "retally_loser": rl, "assertion.contest": repr(a.contest)},
                     "signature": f"C14:retally:{ja[0]}"})
@@ -571,7 +643,8 @@ def tally_cases(ctx, res, A, RU, RR, ids):
                     res.oracle_violations.append({
                         "what": f"audit-side assorter total of a returned {ja[0]} assertion differs from "
                                 "(votes_for_winner - votes_for_loser + n)/2",
-                        "input": {"text": text, "contest": con.name, "assertion": json_of(ja)},
+                        "input": {"text": text, "contest": con.name, "assertion": json_of(ja),
+                                  "cvr_votes": repr([c.votes for c in acvrs])},
                         "observed": {"assorter_total": tot, "n_cvrs": len(acvrs), "votes_for_winner": vw,
                                      "votes_for_loser": vl},
                         "signature": f"C14:mean-vs-tally:{ja[0]}"})
@@ -586,6 +659,7 @@ def tally_cases(ctx, res, A, RU, RR, ids):
 # ---------------------------------------------------------------- entry point
 def run(ctx, res):
     A, RU, RR = impl()
+    res.stats_reps = {}
     stats = {"sweep_ballots": 0, "sweep_evaluations": 0, "dict_cases": 0, "file_cases": 0, "tally_cases": 0,
              "assertions_returned": {"NEB": 0, "NEN": 0}}
     # 1. exhaustive sweep
@@ -642,11 +716,14 @@ def run(ctx, res):
                 "ranking, assertion).  Plus random directly-written rank dicts (falsy/duplicate ranks, absent contest, "
                 "w==l, w in E), random multi-contest RAIRE files (distinct texts), random profiles through "
                 "compute_raire_assertions (distinct (text, contest) with >= 1 assertion)")
+    stats["audit_rank_representation_of_sweep_ballots"] = res.stats_reps
     res.samples = [case_json(c) for c in (sw[:1] + dc[:1] + fc[:1] + tc[:1])]
     res.stats = stats
     res.assumptions = [
         "tokenisation of the text format (csv.reader vs str.split+strip) is exercised, not modelled: generated files "
         "have no blanks around commas, no quotes, no blank lines, no candidate named winner/order/informal",
         "falsy audit-side ranks (False, 0, None, '') are one value in the model",
+        "rank / index values are carried by int, np.int64/32/8, float, np.float64 (and True for rank 1 on the audit side), "
+        "per world, per ballot and mixed within a ballot, on both sides; the model and the oracles see int(value)",
         "Contest.winner / Contest.outcome parsed from the header are not modelled (they do not affect ballots)",
     ]
